@@ -564,6 +564,42 @@ func Main(prop, level string, assumptions []string, run func(c *Check), replay R
 	cov["capped"] = merged.Capped
 	cov["samples"] = merged.Samples
 	if len(scen) > 0 {
+		cov["scenario_count"] = len(scen)
+		if len(scen) > 120 {
+			// Families of thousands of small scenarios: keep the file readable (and
+			// small) - every scenario that hit a cap, the first and last 40 and the ten
+			// with most executions are listed; the totals above cover all of them.
+			keep := map[int]bool{}
+			for i, x := range scen {
+				if x["capped"] == true || i < 40 || i >= len(scen)-40 {
+					keep[i] = true
+				}
+			}
+			idx := make([]int, len(scen))
+			for i := range idx {
+				idx[i] = i
+			}
+			sort.SliceStable(idx, func(a, b int) bool { return scen[idx[a]]["execs"].(int) > scen[idx[b]]["execs"].(int) })
+			for _, i := range idx[:10] {
+				keep[i] = true
+			}
+			var short []map[string]any
+			cappedN := 0
+			for i, x := range scen {
+				if x["capped"] == true {
+					cappedN++
+					if cappedN > 200 {
+						continue
+					}
+				}
+				if keep[i] {
+					short = append(short, x)
+				}
+			}
+			cov["scenarios_listed"] = fmt.Sprintf("%d of %d (all capped ones up to 200, the first and last 40, the 10 with most executions)", len(short), len(scen))
+			cov["scenarios_capped"] = cappedN
+			scen = short
+		}
 		cov["scenarios"] = scen
 		cov["schedules_executed"] = execs
 		cov["distinct_outcomes_total"] = outcomes
